@@ -110,6 +110,8 @@ func (e *CExpr) String() string {
 		return "old(" + e.Args[0].String() + ")"
 	case "pre":
 		return "pre(" + e.Args[0].String() + ")"
+	case "prev":
+		return "prev(" + e.Args[0].String() + ")"
 	case "call":
 		var as []string
 		for _, a := range e.Args {
@@ -590,6 +592,18 @@ func (p *cparser) primary() (*CExpr, error) {
 			return &CExpr{Op: "nil", Name: "nil"}, nil
 		case "result":
 			return &CExpr{Op: "result", Name: "result"}, nil
+		case "prev":
+			if p.isOp("(") {
+				p.p++
+				a, err := p.expr()
+				if err != nil {
+					return nil, err
+				}
+				if err := p.expect(")"); err != nil {
+					return nil, err
+				}
+				return &CExpr{Op: "prev", Args: []*CExpr{a}}, nil
+			}
 		case "pre":
 			if p.isOp("(") {
 				p.p++
